@@ -423,11 +423,17 @@ func c05Stress(s *C05Script, c *core.Ctx) {
 	// library predicate never reports completion before the data ends
 	var payload []byte
 	payload = append(payload, 0)
+	// total section sizes: 186 (never ends on a packet boundary), and sizes that divide 65536
+	// (64, 256, 1024), so that a 16-bit cursor wrapping around lands on a section start again
+	body := []int{179, 57, 249, 1017}[s.Stamp%4]
 	for len(payload) < n*184 {
-		sec := ref.ForeignSection{TableID: 0x42, Body: make([]byte, 179)}.Section()
+		sec := ref.ForeignSection{TableID: 0x42, Body: make([]byte, body)}.Section()
 		payload = append(payload, sec...)
 	}
 	payload = payload[:n*184]
+	if payload[len(payload)-1] == 0xFF {
+		payload[len(payload)-1] = 0x00 // keep the last (incomplete) section from looking like stuffing
+	}
 	pk := parties.Packetise(payload, parties.Carrier{PID: 0x64})
 	stream := parties.Flatten(pk)
 	input := uint64(len(stream))
@@ -471,6 +477,35 @@ func c05Stress(s *C05Script, c *core.Ctx) {
 		packet.IOWriter(sink).(io.ReaderFrom).ReadFrom(bytes.NewReader(stream))
 	}) {
 		return
+	}
+	// splice_info_sections whose descriptor loop is close to the 16-bit limit: decode,
+	// then print and re-encode whatever decodes
+	for _, loop := range []int{65490, 65500, 65510, 65514, 65515, 65519, 65520, 65525, 65529, 65530, 65535} {
+		loop := loop
+		sec := []byte{0xFC, 0x30, 0x00, 0x00, 0x00, 0x00, 0x00, 0x00, 0x00, 0x00, 0xFF, 0xF0, 0x05, 0x06, 0xFE, 0x00, 0x01, 0x02, 0x03, byte(loop >> 8), byte(loop)}
+		for left := loop; left > 0; {
+			l := left - 2
+			if l > 253 {
+				l = 253
+			}
+			if left-2-l == 1 { // never leave a single byte for the next descriptor
+				l--
+			}
+			sec = append(sec, 0x00, byte(l))
+			sec = append(sec, make([]byte, l)...)
+			left -= 2 + l
+		}
+		sec = append(sec, 0, 0, 0, 0)
+		in := append([]byte{0}, sec...)
+		if !measure("scte35 near-64KiB descriptor loop", func() {
+			if sc, err := scte35.NewSCTE35(in); err == nil && sc != nil {
+				_ = sc.String()
+				sc.UpdateData()
+				sc.Data()
+			}
+		}) {
+			return
+		}
 	}
 	// sync search over a long run of false sync bytes
 	junk := bytes.Repeat([]byte{0x47, 0x00, 0x05, 0x10}, n*47)
